@@ -533,6 +533,14 @@ def judge(case: dict, r: dict, acc: set) -> list[dict]:
                 V("A1.powerloss", f"after power loss the target may be {label}: {_n(node)}; before={_n(tb)} fired={fired}")
                 break
         r["pl_states"] = n_states
+    # ---- A1 if power is lost right after the call(s) returned (same durability model, evaluated on the final state)
+    if not sim.powerlost and sim.crash_op is None and not multi:
+        for label, node in fsmodel.powerloss_states(before, sim, r["root"], trel, after):
+            r["pl_states"] = r.get("pl_states", 0) + 1
+            if not a1_ok(node):
+                V("A1.powerloss-after-return", f"if power is lost after the call returned, the target may be {label}: {_n(node)}; "
+                                               f"before={_n(tb)} fired={fired}")
+                break
     # ---- per-actor clauses
     for i, a in enumerate(actors):
         st, h = outs[i]
@@ -667,8 +675,7 @@ def _account(stats: Stats, case, r, viols):
         stats.group("probes", k, v)
     outs = "/".join(a.outcome for a in r["actors"])
     stats.group("outcomes", outs)
-    if sim.powerlost:
-        stats.inc("powerloss_states", r.get("pl_states", 0))
+    stats.inc("powerloss_states", r.get("pl_states", 0))
     wl = r["writers"]
     for i, a in enumerate(r["actors"]):
         st, _ = classify(entry_of(sc, wl[i]), a)
@@ -705,6 +712,40 @@ def _account(stats: Stats, case, r, viols):
 # --------------------------------------------------------------------------- #
 
 CRASHES = ["kill", "powerloss", "interrupt"]
+
+
+def fidelity_check(case: dict, stats: Stats):
+    """The fault-free scenario once THROUGH the seam (SimFile, interposed os.*) and once WITHOUT it (CPython's own file
+    objects, plain os): same result class and byte-identical tree, or the simulator misrepresents the code (harness error)."""
+    r1 = _simulate(case, [], None, Tape(values=[]), tag="fid1")
+    sc = case["scenario"]
+    root = fsmodel.fresh_root("fid2")
+    spec, trel = layout(sc)
+    fsmodel.build_tree(root, spec)
+    fn = make_call(sc, root, trel, None)
+
+    class _A:
+        outcome = "returned"
+        result = None
+        exc = None
+
+    a2 = _A()
+    try:
+        a2.result = fn()  # no actor is current: every interposed function passes straight through
+    except SystemExit as e:
+        a2.result = e
+    except Exception as e:  # noqa: BLE001
+        a2.outcome, a2.exc = "raised", e
+    t1 = {k: v[:3] for k, v in r1["after"].items()}
+    t2 = {k: v[:3] for k, v in fsmodel.snapshot(root).items()}
+    # temp names differ (deterministic vs random) only if a temp file is LEFT, which a fault-free run must not do
+    d = fsmodel.diff(t1, t2)
+    c1 = classify(sc["entry"], r1["actors"][0])
+    c2 = classify(sc["entry"], a2)
+    if d or c1 != c2:
+        raise seam.HarnessError(f"seam fidelity: scenario {case.get('idx')} behaves differently through the simulator: "
+                                f"results {c1} vs {c2}; tree diff {d[:4]}")
+    stats.inc("fidelity_checks_passed")
 
 
 def make_case(seed: int, idx: int, tier: str, two_writers: bool = False) -> dict:
@@ -784,6 +825,7 @@ def _sweep(unit, stats, viols):
     base = _run_and_collect(case0, stats, viols)  # fault-free run, judged like any other
     if not unit.get("pairs"):
         stats.inc("sweep_scenarios")
+        fidelity_check(case0, stats)
     else:
         stats.inc("pair_sweep_parts")
     ops = base["ops0"]
@@ -992,6 +1034,7 @@ def main(tier: str, seed: int, args) -> int:
         "traces_validated_against_impl": c.get("xval_agree", 0),
         "kill_points_cross_validated_against_real_SIGKILL": {"children": c.get("xval_children", 0), "agree": c.get("xval_agree", 0),
                                                               "by_op": dict(stats.groups.get("xval_ops", {}))},
+        "seam_fidelity_checks_passed": c.get("fidelity_checks_passed", 0),
         "sweep_scenarios": c.get("sweep_scenarios", 0),
         "sweep_single_fault_runs": c.get("sweep_single_runs", 0),
         "sweep_pair_runs": c.get("sweep_pair_runs", 0),
